@@ -110,9 +110,9 @@ class error_999_visitor(pyx12.error_visitor.error_visitor):
             for (err_cde, err_str, bad_value) in elem.errors:
                 # Ugly
                 if 'ISA' in err_str:
-                    err_codes.append(isa_ele_err_map[elem.ele_pos])
+                    err_codes.append(isa_ele_err_map.get(elem.ele_pos, '024'))  # e.g. a surplus element: invalid interchange content
                 elif 'IEA' in err_str:
-                    err_codes.append(iea_ele_err_map[elem.ele_pos])
+                    err_codes.append(iea_ele_err_map.get(elem.ele_pos, '024'))
         # return unique codes
         return sorted(set(err_codes))
 
@@ -263,9 +263,9 @@ class error_999_visitor(pyx12.error_visitor.error_visitor):
             for (err_cde, err_str, bad_value) in elem.errors:
                 # Ugly
                 if 'ST' in err_str:
-                    err_codes.append(st_ele_err_map[elem.ele_pos])
+                    err_codes.append(st_ele_err_map.get(elem.ele_pos, '5'))  # e.g. a surplus element: the segment is in error
                 elif 'SE' in err_str:
-                    err_codes.append(se_ele_err_map[elem.ele_pos])
+                    err_codes.append(se_ele_err_map.get(elem.ele_pos, '5'))
         # return unique codes
         ret = list(set(err_codes))
         ret.sort()
